@@ -15,7 +15,13 @@ PROP = dict(
           "parent that is itself a sub-reader): a case may step into the reader that sub/subx just returned, the model then tracks the absolute "
           "window inside the original data; exhaustive for n in 0..4 x three constructors x every pair of the four sub/subx forms x every "
           "(offset, size) in 0..n+1 at both levels, random in pos (accessor called on a sub-reader of depth 1..2) and hist. hist: cursor "
-          "histories of 1..30 such calls incl. go(), truncate() and steps into sub-readers, with a model of cursor, length and window. bw: BufferWriter over a guarded "
+          "histories of 1..30 such calls incl. go(), truncate() and steps into sub-readers, with a model of cursor, length and window. "
+          "Several live views of one storage (pos grid, random pos and hist alike): besides the reader the calls are made on, every case keeps a by-value "
+          "copy of the root reader made before the first call, a second reader constructed over the same block / string / shared_ptr<string>, and every "
+          "reader the history stepped out of when it went into a sub-reader; after EVERY call each of these other views must still have its size and "
+          "cursor and read exactly its whole window of the original bytes (a reader over n bytes returns exactly the requested slice whatever was done "
+          "through another reader), and the storage the caller handed over (heap block, std::string, the string behind the shared_ptr: size, buffer address "
+          "and every byte) must be unchanged - a reader never writes, inside or outside its buffer. bw: BufferWriter over a guarded "
           "buffer of capacity 0..64 (pwrite/write/put_*/pput_*, grid + random). sw: StringWriter appends and pput_* at offsets <= 4096 "
           "or >= 2^63. Non-trivial: a call whose offset or size lies within +-2 of n, 2^63 or 2^64, whose end lies within +-2 of n, whose "
           "offset+size wraps, a get_line on an unterminated last line, or a sub-reader taken from a sub-reader whose window does not start at the "
